@@ -201,12 +201,19 @@ def project_equal(impl, ref):
     bad = []
     ign = set(ref.get("ignmd", "").split(",")) if ref.get("ignmd") else set()
     for k, v in ref.items():
-        if k in ("id", "ignmd", "ccrmask"):
+        if k in ("id", "ignmd", "ccrmask", "imglim"):
             continue
         iv = impl.get(k, "")
         if k == "md":
             f = lambda s: sorted(x for x in s.split(";") if x and x.split(":")[0] not in ign)
             if f(iv) != f(v):
+                bad.append(k)
+        elif k == "mdimg":
+            # the memory image below the end of the loaded program plus everything outside DRAM (C11)
+            lim = int(ref.get("imglim", "0"), 16)
+            inimg = lambda x: (lambda a: a < lim or not (0x400000 <= a <= 0x5fffff))(int(x.split(":")[0], 16))
+            g = lambda s: sorted(x for x in s.split(";") if x and inimg(x))
+            if g(impl.get("md", "")) != g(v):
                 bad.append(k)
         elif k == "ccr" and "ccrmask" in ref:
             m = int(ref["ccrmask"], 16)
@@ -322,7 +329,7 @@ def compare_shard(pid, casefile, iout, mout, status, oc, nontrivial_key=None, ke
         m = M.get(cid)
         r = R.get(cid, {})
         if keys is not None:
-            r = {k: v for k, v in r.items() if k in keys or k in ("id", "ignmd", "ccrmask")}
+            r = {k: v for k, v in r.items() if k in keys or k in ("id", "ignmd", "ccrmask", "imglim")}
         i = I.get(cid)
         if m is None:
             oc.internal.append(("no model observation", line, ""))
